@@ -2,12 +2,13 @@ package props
 
 import (
 	"bytes"
-	"fmt"
 	"encoding/json"
+	"fmt"
 	"io"
 	"os"
 	"os/exec"
 	"path/filepath"
+	"regexp"
 	"runtime/debug"
 	"strings"
 	"testing"
@@ -479,6 +480,8 @@ func hostileTS(t *rapid.T) ([]byte, readOpts) {
 	return m.out.Bytes(), o
 }
 
+var ttmlAttrValueRe = regexp.MustCompile(`="[^"]*"`)
+
 func genHostileDoc(t *rapid.T, format string) ([]byte, readOpts) {
 	o := readOpts{}
 	switch format {
@@ -489,9 +492,29 @@ func genHostileDoc(t *rapid.T, format string) ([]byte, readOpts) {
 		}
 		return mutateLines(t, format, doc, docGen(format).Draw(t, "other")), o
 	case "ttml":
-		switch rapid.IntRange(0, 3).Draw(t, "kind") {
+		switch rapid.IntRange(0, 4).Draw(t, "kind") {
 		case 0:
 			return []byte(rapid.SampledFrom(hostileTTML).Draw(t, "hostile")), o
+		case 4:
+			// any attribute of a valid document gets a degenerate value (empty, blank, one token too few or too many, junk)
+			doc := docGen(format).Draw(t, "doc")
+			locs := ttmlAttrValueRe.FindAllIndex(doc, -1)
+			if len(locs) == 0 {
+				return doc, o
+			}
+			var out []byte
+			last := 0
+			for _, l := range locs {
+				if rapid.IntRange(0, 3).Draw(t, "degenerate") != 0 {
+					continue
+				}
+				v := rapid.SampledFrom([]string{"", " ", "  ", "x", "1", "1 2 3", "-1", "%", "px", "1px", "auto", "#", "#12", "rgba(", "00:00", ":", "1.5.5s", "99999999999999999999s", "1f", "1t", "&amp;", "\u00a0"}).Draw(t, "value")
+				out = append(out, doc[last:l[0]+2]...)
+				out = append(out, v...)
+				last = l[1] - 1
+			}
+			out = append(out, doc[last:]...)
+			return out, o
 		case 1:
 			// drop or corrupt an attribute of a valid document
 			doc := string(docGen(format).Draw(t, "doc"))
